@@ -1,5 +1,592 @@
-//! C03 — not implemented yet.
+//! C03 — matrix algebra (product, transpose, determinant, inverse, +, -, scaling) is the true one.
+//!
+//! Everything in this file is independent of glam: the number tower of the reference
+//! (i128 exact integers, f64 for the f32 types, double-double for the f64 types), the reference
+//! matrix `RM` (Laplace expansion, adjugate, products, all also on absolute values to get the
+//! `S = sum |monomials|` of the tolerance calculus) and the proptest generators.
+use vcore::num::DD;
+use vcore::*;
+
+pub mod refm {
+    use super::DD;
+
+    /// A number type the reference can compute in.
+    pub trait Num: Copy + std::fmt::Debug + PartialEq {
+        fn zero() -> Self;
+        fn one() -> Self;
+        fn nadd(self, o: Self) -> Self;
+        fn nsub(self, o: Self) -> Self;
+        fn nmul(self, o: Self) -> Self;
+        fn nneg(self) -> Self;
+        fn nabs(self) -> Self;
+        fn f(self) -> f64;
+        fn of(x: f64) -> Self;
+        fn is_zero(self) -> bool;
+    }
+    impl Num for f64 {
+        fn zero() -> f64 { 0.0 }
+        fn one() -> f64 { 1.0 }
+        fn nadd(self, o: f64) -> f64 { self + o }
+        fn nsub(self, o: f64) -> f64 { self - o }
+        fn nmul(self, o: f64) -> f64 { self * o }
+        fn nneg(self) -> f64 { -self }
+        fn nabs(self) -> f64 { self.abs() }
+        fn f(self) -> f64 { self }
+        fn of(x: f64) -> f64 { x }
+        fn is_zero(self) -> bool { self == 0.0 }
+    }
+    impl Num for DD {
+        fn zero() -> DD { DD::ZERO }
+        fn one() -> DD { DD::ONE }
+        fn nadd(self, o: DD) -> DD { self.add(o) }
+        fn nsub(self, o: DD) -> DD { self.sub(o) }
+        fn nmul(self, o: DD) -> DD { self.mul(o) }
+        fn nneg(self) -> DD { self.neg() }
+        fn nabs(self) -> DD { self.abs() }
+        fn f(self) -> f64 { self.hi + self.lo }
+        fn of(x: f64) -> DD { DD::new(x) }
+        fn is_zero(self) -> bool { self.hi == 0.0 && self.lo == 0.0 }
+    }
+    impl Num for i128 {
+        fn zero() -> i128 { 0 }
+        fn one() -> i128 { 1 }
+        fn nadd(self, o: i128) -> i128 { self + o }
+        fn nsub(self, o: i128) -> i128 { self - o }
+        fn nmul(self, o: i128) -> i128 { self * o }
+        fn nneg(self) -> i128 { -self }
+        fn nabs(self) -> i128 { self.abs() }
+        fn f(self) -> f64 { self as f64 }
+        fn of(x: f64) -> i128 { x as i128 }
+        fn is_zero(self) -> bool { self == 0 }
+    }
+
+    /// Reference matrix, `e[c][r]` (column, row), n <= 4.
+    #[derive(Clone, Copy, Debug)]
+    pub struct RM<X: Num> {
+        pub n: usize,
+        pub e: [[X; 4]; 4],
+    }
+    impl<X: Num> RM<X> {
+        pub fn zero(n: usize) -> Self {
+            RM { n, e: [[X::zero(); 4]; 4] }
+        }
+        /// from a column-major list a[c*n + r]
+        pub fn from_cols(n: usize, a: &[X]) -> Self {
+            let mut m = Self::zero(n);
+            for c in 0..n {
+                for r in 0..n {
+                    m.e[c][r] = a[c * n + r];
+                }
+            }
+            m
+        }
+        #[inline]
+        pub fn at(&self, r: usize, c: usize) -> X {
+            self.e[c][r]
+        }
+        pub fn abs(&self) -> Self {
+            let mut m = *self;
+            for c in 0..self.n {
+                for r in 0..self.n {
+                    m.e[c][r] = self.e[c][r].nabs();
+                }
+            }
+            m
+        }
+        pub fn transpose(&self) -> Self {
+            let mut m = Self::zero(self.n);
+            for c in 0..self.n {
+                for r in 0..self.n {
+                    m.e[c][r] = self.e[r][c];
+                }
+            }
+            m
+        }
+        /// (self * o)(r, c) = sum_k self(r, k) * o(k, c)
+        pub fn mul(&self, o: &Self) -> Self {
+            let n = self.n;
+            let mut m = Self::zero(n);
+            for c in 0..n {
+                for r in 0..n {
+                    let mut s = X::zero();
+                    for k in 0..n {
+                        s = s.nadd(self.at(r, k).nmul(o.at(k, c)));
+                    }
+                    m.e[c][r] = s;
+                }
+            }
+            m
+        }
+        /// (self * v)(r) = sum_c self(r, c) * v(c)
+        pub fn mulv(&self, v: &[X]) -> [X; 4] {
+            let n = self.n;
+            let mut out = [X::zero(); 4];
+            for r in 0..n {
+                let mut s = X::zero();
+                for c in 0..n {
+                    s = s.nadd(self.at(r, c).nmul(v[c]));
+                }
+                out[r] = s;
+            }
+            out
+        }
+        /// the matrix without row `dr` and column `dc`
+        pub fn minor(&self, dr: usize, dc: usize) -> Self {
+            let n = self.n;
+            let mut m = Self::zero(n - 1);
+            let mut cc = 0;
+            for c in 0..n {
+                if c == dc {
+                    continue;
+                }
+                let mut rr = 0;
+                for r in 0..n {
+                    if r == dr {
+                        continue;
+                    }
+                    m.e[cc][rr] = self.e[c][r];
+                    rr += 1;
+                }
+                cc += 1;
+            }
+            m
+        }
+        /// Laplace expansion along row 0. `signed == false` drops the alternating signs: on a matrix
+        /// of absolute values this is the sum of the absolute values of all n! monomials.
+        pub fn det_s(&self, signed: bool) -> X {
+            let n = self.n;
+            if n == 1 {
+                return self.e[0][0];
+            }
+            if n == 2 {
+                let a = self.e[0][0].nmul(self.e[1][1]);
+                let b = self.e[1][0].nmul(self.e[0][1]);
+                return if signed { a.nsub(b) } else { a.nadd(b) };
+            }
+            let mut s = X::zero();
+            for c in 0..n {
+                let t = self.at(0, c).nmul(self.minor(0, c).det_s(signed));
+                s = if signed && c % 2 == 1 { s.nsub(t) } else { s.nadd(t) };
+            }
+            s
+        }
+        pub fn det(&self) -> X {
+            self.det_s(true)
+        }
+        /// adjugate: adj(r, c) = (-1)^(r+c) det(self without row c and column r)
+        pub fn adj_s(&self, signed: bool) -> Self {
+            let n = self.n;
+            let mut m = Self::zero(n);
+            for c in 0..n {
+                for r in 0..n {
+                    let d = if n == 1 { X::one() } else { self.minor(c, r).det_s(signed) };
+                    m.e[c][r] = if signed && (r + c) % 2 == 1 { d.nneg() } else { d };
+                }
+            }
+            m
+        }
+        pub fn nonzero(&self) -> usize {
+            let mut k = 0;
+            for c in 0..self.n {
+                for r in 0..self.n {
+                    if !self.e[c][r].is_zero() {
+                        k += 1;
+                    }
+                }
+            }
+            k
+        }
+        pub fn frob(&self) -> f64 {
+            let mut s = 0.0;
+            for c in 0..self.n {
+                for r in 0..self.n {
+                    let x = self.e[c][r].f();
+                    s += x * x;
+                }
+            }
+            s.sqrt()
+        }
+        pub fn list(&self) -> Vec<f64> {
+            let mut v = vec![];
+            for c in 0..self.n {
+                for r in 0..self.n {
+                    v.push(self.e[c][r].f());
+                }
+            }
+            v
+        }
+    }
+}
+
+/// Scalar of a glam matrix type and its reference number type.
+pub trait Fl: Copy + PartialOrd + std::fmt::Debug + Default + 'static {
+    type R: refm::Num;
+    const BITS: u32;
+    const U: f64;
+    const SIGN: u64;
+    fn fb(w: u64) -> Self;
+    fn tb(self) -> u64;
+    fn r(self) -> Self::R;
+    fn to64(self) -> f64;
+    fn of64(x: f64) -> Self;
+    fn ieq(a: Self, b: Self) -> bool;
+    fn fadd(self, o: Self) -> Self;
+    fn fsub(self, o: Self) -> Self;
+    fn fmul(self, o: Self) -> Self;
+    fn fdiv(self, o: Self) -> Self;
+}
+impl Fl for f32 {
+    type R = f64;
+    const BITS: u32 = 32;
+    const U: f64 = vcore::num::U32;
+    const SIGN: u64 = 0x8000_0000;
+    #[inline] fn fb(w: u64) -> f32 { f32::from_bits(w as u32) }
+    #[inline] fn tb(self) -> u64 { self.to_bits() as u64 }
+    #[inline] fn r(self) -> f64 { self as f64 }
+    #[inline] fn to64(self) -> f64 { self as f64 }
+    #[inline] fn of64(x: f64) -> f32 { x as f32 }
+    #[inline] fn ieq(a: f32, b: f32) -> bool { (a.is_nan() && b.is_nan()) || a == b }
+    #[inline] fn fadd(self, o: f32) -> f32 { self + o }
+    #[inline] fn fsub(self, o: f32) -> f32 { self - o }
+    #[inline] fn fmul(self, o: f32) -> f32 { self * o }
+    #[inline] fn fdiv(self, o: f32) -> f32 { self / o }
+}
+impl Fl for f64 {
+    type R = DD;
+    const BITS: u32 = 64;
+    const U: f64 = vcore::num::U64;
+    const SIGN: u64 = 0x8000_0000_0000_0000;
+    #[inline] fn fb(w: u64) -> f64 { f64::from_bits(w) }
+    #[inline] fn tb(self) -> u64 { self.to_bits() }
+    #[inline] fn r(self) -> DD { DD::new(self) }
+    #[inline] fn to64(self) -> f64 { self }
+    #[inline] fn of64(x: f64) -> f64 { x }
+    #[inline] fn ieq(a: f64, b: f64) -> bool { (a.is_nan() && b.is_nan()) || a == b }
+    #[inline] fn fadd(self, o: f64) -> f64 { self + o }
+    #[inline] fn fsub(self, o: f64) -> f64 { self - o }
+    #[inline] fn fmul(self, o: f64) -> f64 { self * o }
+    #[inline] fn fdiv(self, o: f64) -> f64 { self / o }
+}
+
+/// Generators (glam-independent). Matrices are lists a[c*n + r].
+pub mod gen {
+    use proptest::prelude::*;
+    use proptest::strategy::BoxedStrategy;
+
+    /// Largest |entry| for which every intermediate of the n×n determinant / adjugate / product stays an
+    /// exactly representable integer: n!·e^n < 2^24 (f32) / 2^53 (f64).
+    pub fn emax(n: usize, bits: u32) -> i64 {
+        match (n, bits) {
+            (2, 32) => 2048,
+            (3, 32) => 128,
+            (4, 32) => 24,
+            (2, _) => 1 << 25,
+            (3, _) => 1 << 16,
+            (4, _) => 4096,
+            _ => unreachable!(),
+        }
+    }
+
+    fn perms(n: usize) -> Vec<Vec<usize>> {
+        fn rec(cur: &mut Vec<usize>, used: &mut Vec<bool>, n: usize, out: &mut Vec<Vec<usize>>) {
+            if cur.len() == n {
+                out.push(cur.clone());
+                return;
+            }
+            for i in 0..n {
+                if !used[i] {
+                    used[i] = true;
+                    cur.push(i);
+                    rec(cur, used, n, out);
+                    cur.pop();
+                    used[i] = false;
+                }
+            }
+        }
+        let mut out = vec![];
+        rec(&mut vec![], &mut vec![false; n], n, &mut out);
+        out
+    }
+
+    /// Integer-lattice matrix: dense (small, ±8, up to emax), dense with zeros, rank-deficient, signed permutation.
+    pub fn lat_mat(n: usize, bits: u32) -> BoxedStrategy<Vec<i64>> {
+        let em = emax(n, bits);
+        let dense = |e: i64| proptest::collection::vec(-e..=e, n * n).boxed();
+        // rank-deficient: base entries small enough that the combination stays within emax
+        let eb = (em / (2 * (n as i64 - 1)).max(1)).max(1).min(8.max(em / 64));
+        let rankdef = (proptest::collection::vec(-eb..=eb, n * n), 0usize..n, any::<bool>(), proptest::collection::vec(-2i64..=2, n), 0u8..4)
+            .prop_map(move |(mut a, k, by_row, coef, mode)| {
+                // line k := combination of the other lines (mode 0: zero line, 1: copy of a neighbour, else general)
+                for i in 0..n {
+                    let mut s = 0i64;
+                    for j in 0..n {
+                        if j == k {
+                            continue;
+                        }
+                        let cj = match mode {
+                            0 => 0,
+                            1 => (j == (k + 1) % n) as i64,
+                            _ => coef[j],
+                        };
+                        let x = if by_row { a[i * n + j] } else { a[j * n + i] };
+                        s += cj * x;
+                    }
+                    if by_row {
+                        a[i * n + k] = s; // row k of every column i
+                    } else {
+                        a[k * n + i] = s; // column k
+                    }
+                }
+                a
+            })
+            .boxed();
+        let pl = perms(n);
+        let np = pl.len();
+        let perm = (0usize..np, proptest::collection::vec(any::<bool>(), n), proptest::collection::vec(0u8..4, n))
+            .prop_map(move |(p, sg, sc)| {
+                let mut a = vec![0i64; n * n];
+                for c in 0..n {
+                    let v = [1i64, 1, 2, 3][sc[c] as usize] * if sg[c] { -1 } else { 1 };
+                    a[c * n + pl[p][c]] = v;
+                }
+                a
+            })
+            .boxed();
+        let holes = (proptest::collection::vec(-8i64..=8, n * n), proptest::collection::vec(0u8..4, n * n))
+            .prop_map(|(a, z)| a.iter().zip(z.iter()).map(|(x, z)| if *z == 0 { 0 } else { *x }).collect::<Vec<i64>>())
+            .boxed();
+        prop_oneof![
+            10 => dense(2),
+            30 => dense(8.min(em)),
+            20 => dense(em),
+            20 => rankdef,
+            10 => perm,
+            10 => holes,
+        ]
+        .boxed()
+    }
+
+    fn ident(n: usize) -> Vec<f64> {
+        let mut m = vec![0.0; n * n];
+        for i in 0..n {
+            m[i * n + i] = 1.0;
+        }
+        m
+    }
+    fn matmul(n: usize, a: &[f64], b: &[f64]) -> Vec<f64> {
+        let mut m = vec![0.0; n * n];
+        for c in 0..n {
+            for r in 0..n {
+                let mut s = 0.0;
+                for k in 0..n {
+                    s += a[k * n + r] * b[c * n + k];
+                }
+                m[c * n + r] = s;
+            }
+        }
+        m
+    }
+    /// product of Givens rotations over all coordinate planes (dense orthogonal matrix)
+    pub fn givens(n: usize, ang: &[f64]) -> Vec<f64> {
+        let mut m = ident(n);
+        let mut k = 0;
+        for i in 0..n {
+            for j in i + 1..n {
+                let (s, c) = ang[k].sin_cos();
+                k += 1;
+                let mut g = ident(n);
+                g[i * n + i] = c;
+                g[j * n + j] = c;
+                g[i * n + j] = s;
+                g[j * n + i] = -s;
+                m = matmul(n, &m, &g);
+            }
+        }
+        m
+    }
+    fn round_to(bits: u32, x: f64) -> f64 {
+        if bits == 32 {
+            x as f32 as f64
+        } else {
+            x
+        }
+    }
+
+    /// U·diag(σ)·Vᵀ with prescribed 2-norm condition number; profile 0: one small singular value,
+    /// profile 1: geometric spectrum (κ limited so that the cofactor formula stays meaningful).
+    fn kappa_mat(n: usize, bits: u32) -> BoxedStrategy<Vec<f64>> {
+        let pi = std::f64::consts::PI;
+        let lkmax: f64 = if bits == 32 { 4.0 } else { 10.0 };
+        (
+            proptest::collection::vec(-pi..pi, 6),
+            proptest::collection::vec(-pi..pi, 6),
+            0u8..3,
+            0.0f64..1.0,
+            proptest::collection::vec(0.5f64..1.0, 2),
+        )
+            .prop_map(move |(au, av, prof, lk, mids)| {
+                let u = givens(n, &au);
+                let v = givens(n, &av);
+                let mut sig = vec![1.0; n];
+                if prof < 2 {
+                    let kappa = 10f64.powf(lk * lkmax);
+                    for i in 1..n - 1 {
+                        sig[i] = mids[i - 1];
+                    }
+                    sig[n - 1] = 1.0 / kappa;
+                } else {
+                    let kappa = 10f64.powf(lk * lkmax / 2.0);
+                    for i in 0..n {
+                        sig[i] = kappa.powf(-(i as f64) / (n as f64 - 1.0));
+                    }
+                }
+                let mut d = vec![0.0; n * n];
+                for i in 0..n {
+                    d[i * n + i] = sig[i];
+                }
+                let mut vt = vec![0.0; n * n];
+                for c in 0..n {
+                    for r in 0..n {
+                        vt[c * n + r] = v[r * n + c];
+                    }
+                }
+                matmul(n, &matmul(n, &u, &d), &vt)
+            })
+            .boxed()
+    }
+
+    /// one scale/rotation/translation factor as an n×n matrix (n = 4: 3D TRS, n = 3: 2D TRS in homogeneous
+    /// form or a 3D rotation·scale, n = 2: rotation·scale)
+    fn trs_factor(n: usize, bits: u32) -> BoxedStrategy<Vec<f64>> {
+        let pi = std::f64::consts::PI;
+        let ls: f64 = if bits == 32 { 2.0 } else { 3.0 };
+        (
+            proptest::collection::vec(-pi..pi, 3),
+            proptest::collection::vec(-ls..ls, 3),
+            proptest::collection::vec(any::<bool>(), 3),
+            proptest::collection::vec(-100.0f64..100.0, 3),
+            any::<bool>(),
+        )
+            .prop_map(move |(ang, lsc, neg, tr, homog)| {
+                let sc: Vec<f64> = (0..3).map(|i| 10f64.powf(lsc[i]) * if neg[i] { -1.0 } else { 1.0 }).collect();
+                match n {
+                    2 => {
+                        let r = givens(2, &ang);
+                        let mut m = r.clone();
+                        for c in 0..2 {
+                            for k in 0..2 {
+                                m[c * 2 + k] *= sc[c];
+                            }
+                        }
+                        m
+                    }
+                    3 if homog => {
+                        let r = givens(2, &ang);
+                        let mut m = ident(3);
+                        for c in 0..2 {
+                            for k in 0..2 {
+                                m[c * 3 + k] = r[c * 2 + k] * sc[c];
+                            }
+                        }
+                        m[6] = tr[0];
+                        m[7] = tr[1];
+                        m
+                    }
+                    3 => {
+                        let mut m = givens(3, &ang);
+                        for c in 0..3 {
+                            for k in 0..3 {
+                                m[c * 3 + k] *= sc[c];
+                            }
+                        }
+                        m
+                    }
+                    _ => {
+                        let r = givens(3, &ang);
+                        let mut m = ident(4);
+                        for c in 0..3 {
+                            for k in 0..3 {
+                                m[c * 4 + k] = r[c * 3 + k] * sc[c];
+                            }
+                        }
+                        m[12] = tr[0];
+                        m[13] = tr[1];
+                        m[14] = tr[2];
+                        m
+                    }
+                }
+            })
+            .boxed()
+    }
+
+    /// product of one to three TRS factors
+    fn trs_mat(n: usize, bits: u32) -> BoxedStrategy<Vec<f64>> {
+        (proptest::collection::vec(trs_factor(n, bits), 1..=3))
+            .prop_map(move |fs| {
+                let mut m = fs[0].clone();
+                for f in &fs[1..] {
+                    m = matmul(n, &m, f);
+                }
+                m
+            })
+            .boxed()
+    }
+
+    /// dense entries with independent log-uniform magnitudes 2^-6..2^6 and random signs, occasional zero
+    fn dense_mat(n: usize) -> BoxedStrategy<Vec<f64>> {
+        proptest::collection::vec((any::<bool>(), -6.0f64..6.0, 0u8..16), n * n)
+            .prop_map(|v| v.iter().map(|(s, e, z)| if *z == 0 { 0.0 } else { 2f64.powf(*e) * if *s { -1.0 } else { 1.0 } }).collect::<Vec<f64>>())
+            .boxed()
+    }
+
+    /// A real matrix of one of the three kinds, scaled by a power of two and rounded to the scalar type.
+    pub fn real_mat(n: usize, bits: u32) -> BoxedStrategy<Vec<f64>> {
+        let g: i32 = if bits == 32 { 10 } else { 60 };
+        (prop_oneof![45 => kappa_mat(n, bits), 30 => trs_mat(n, bits), 25 => dense_mat(n)], -g..=g, 0u8..3)
+            .prop_map(move |(m, g, use_g)| {
+                let s = if use_g == 0 { 2f64.powi(g) } else { 1.0 };
+                m.iter().map(|x| round_to(bits, x * s)).collect::<Vec<f64>>()
+            })
+            .boxed()
+    }
+
+    /// vector with log-uniform component magnitudes 2^-10..2^10, occasional zero
+    pub fn real_vec(n: usize, bits: u32) -> BoxedStrategy<Vec<f64>> {
+        proptest::collection::vec((any::<bool>(), -10.0f64..10.0, 0u8..12), n)
+            .prop_map(move |v| v.iter().map(|(s, e, z)| round_to(bits, if *z == 0 { 0.0 } else { 2f64.powf(*e) * if *s { -1.0 } else { 1.0 } })).collect::<Vec<f64>>())
+            .boxed()
+    }
+}
+
+mod simd {
+    pub const VARIANT: &str = "simd";
+    use ::glam_simd as glam;
+    include!("suite.rs");
+}
+mod scalar {
+    pub const VARIANT: &str = "scalar";
+    use ::glam_scalar as glam;
+    include!("suite.rs");
+}
+#[cfg(feature = "core")]
+mod core_simd {
+    pub const VARIANT: &str = "core";
+    use ::glam_core as glam;
+    include!("suite.rs");
+}
+
 fn main() {
-    eprintln!("c03: not implemented");
-    std::process::exit(2);
+    let args = Args::parse();
+    let mut subs = vec![];
+    #[cfg(not(feature = "core"))]
+    {
+        subs.extend(simd::subs(&args));
+        subs.extend(scalar::subs(&args));
+    }
+    #[cfg(feature = "core")]
+    {
+        subs.extend(core_simd::subs(&args));
+    }
+    let code = main_with("C03", "see MANIFEST / evidence rule", &args, subs);
+    std::process::exit(code);
 }
